@@ -4,7 +4,7 @@
    `f_ok x = true` (Model/Overflow.v) says: no arithmetic site of the Rust function `f` (nor of the callees it
    reaches) panics in a build with overflow checks and debug assertions.  The theorems quantify over ALL
    display-scale inputs (ds_* : |coordinate| <= 1024, extents <= 1024, stroke widths <= 128, offsets within +-128;
-   edge_* : the vertices of the edge lines of a thick segment, |coordinate| <= 1280).
+   edge_* : the vertices of the edge lines of a thick segment, |coordinate| <= 1800).
    Loops: Line::points (bresenham_run, exactly major_length <= 2049 steps), ContiguousPixels (exactly w*h+1 calls),
    text lines (one step per line); the thick-line iterators are covered per step with an inductive invariant.
    C08_sites_covered ties the predicates to the source: it is re-proved against the site table regenerated from
@@ -240,13 +240,13 @@ Theorem C08_miter_total : forall inter mid width,
   miter_ok inter mid width = true.
 Proof. exact miter_total. Qed.
 (* the point used for a join (intersection of two display-scale edge lines that are not nearly colinear, or the end of
-   the first edge) lies within +-13108481: SaturatingAs never saturates and `intersection - mid` cannot overflow *)
+   the first edge) lies within +-25921801: SaturatingAs never saturates and `intersection - mid` cannot overflow *)
 Theorem C08_ip_intersection_bound : forall l1 l2 p,
   edge_line l1 -> edge_line l2 -> nearly_colinear l1 l2 = false ->
-  ip_intersection l1 l2 = Some p -> pbound 13108481 p.
+  ip_intersection l1 l2 = Some p -> pbound 25921801 p.
 Proof. exact ip_intersection_bound. Qed.
 Theorem C08_join_point_bound : forall second first p,
-  edge_line second -> edge_line first -> join_point second first = Some p -> pbound 13108481 p.
+  edge_line second -> edge_line first -> join_point second first = Some p -> pbound 25921801 p.
 Proof. exact join_point_bound. Qed.
 (* LineJoin::from_points on the four edge lines of two display-scale thick segments: intersections, the
    self-intersection test and the miter test are total *)
@@ -337,6 +337,27 @@ Proof. exact cropped_new_total. Qed.
 Theorem C08_cropped_next_total : forall s,
   0 <= cs_x s <= 4294967294 -> 0 <= cs_y s -> cs_h s <= 4294967295 -> cropped_next_ok s = true.
 Proof. exact cropped_next_total. Qed.
+(* documented panics and constant indices: the exact precondition of each *)
+Theorem C08_point_index_iff : forall idx, point_index_ok idx = true <-> 0 <= idx < 2.
+Proof. exact point_index_iff. Qed.
+Theorem C08_from_array2_total : from_array2_ok = true.
+Proof. exact from_array2_total. Qed.
+Theorem C08_tri_from_slice_iff : forall len, tri_from_slice_ok len = true <-> len = 3.
+Proof. exact tri_from_slice_iff. Qed.
+Theorem C08_sorted_clockwise_total : forall p1 p2 p3,
+  ds_point p1 -> ds_point p2 -> ds_point p3 -> sorted_clockwise_ok p1 p2 p3 = true.
+Proof. exact sorted_clockwise_total. Qed.
+Theorem C08_is_collapsed_step_total : forall um i opposite inner,
+  4294967295 <= um -> 0 <= i < 3 -> edge_line opposite ->
+  pbound 131072 inner -> is_collapsed_step_ok um i opposite inner = true.
+Proof. exact is_collapsed_step_total. Qed.
+Theorem C08_image_new_const_iff : forall um w h bpp len,
+  4294967295 <= um -> ds_ext w -> ds_ext h -> ds_bpp bpp ->
+  (image_new_const_ok um w h bpp len = true <-> len = bytes_per_row w bpp * h).
+Proof. exact image_new_const_iff. Qed.
+Theorem C08_with_angle_total : forall is_180 c s,
+  - 1025 <= c <= 1025 -> - 1025 <= s <= 1025 -> with_angle_ok is_180 c s = true.
+Proof. exact with_angle_total. Qed.
 Theorem C08_sites_covered :
   forall row, In row Gen.ArithSites.arith_sites -> site_covered row = true.
 Proof. exact sites_covered. Qed.
